@@ -54,6 +54,9 @@ def check_typing(ctx, case):
                 ctx.fail("{}: vector backbone is not reverse-complemented".format(cls.__name__), case)
     ctx.note("verdict:" + a[0])
     ctx.case(case, nontrivial=a[0] == "valid", key=[case["cls"], wd])
+    if case.get("insite"):
+        ctx.note("cutter-cutting-inside-its-site")
+        return          # a negative offset is outside the model's geometries: strand symmetry by the oracle only
     if case.get("real"):
         ctx.note("part-over-" + ("degenerate-site" if set(site) - set("ACGT") else "plain-site") + "-cutter")
         return          # sites with ambiguity codes and 3' geometries: oracle only here (the model covers them in C04/C05)
@@ -140,6 +143,32 @@ def run(ctx):
         sig = rng.choice([(up, down), ("N" * k, "N" * k), (up, "N" * k)])
         ctx.guard(check_typing, {"cls": "part:{}:{}:{}:{}".format(kind, enz, sig[0], sig[1]), "real": True,
                                  "cls_rc": "part:{}:{}:{}:{}".format(kind, enz, gen.rc(sig[1]), gen.rc(sig[0])),
+                                 "word": gen.rot(wd, rng.randrange(len(wd)))})
+    # cutters the library accepts although they cut inside their own site (BbvCI, AciI, BssSI …): whatever structure the
+    # generic classes derive for them, a plasmid with exactly the two sites is read alike on both strands
+    from Bio import Restriction
+    insite = []
+    for e in sorted(Restriction.AllEnzymes, key=str):
+        try:
+            if e.is_blunt() or e.is_unknown() or e.is_palindromic() or e.cut_twice() or not e.is_5overhang():
+                continue
+        except Exception:  # noqa
+            continue
+        if e.fst5 - len(e.site) < 0 and set(e.site) <= set("ACGT"):
+            insite.append(e)
+    ctx.extra["cov_insite_cutters"] = [str(e) for e in insite]
+    for _ in range(ctx.budget(60, 1500)):
+        enz = rng.choice(insite)
+        kind = rng.choice("MV")
+        cls = asm.cls_by_name("generic:{}:{}".format(kind, enz))
+        try:
+            inst, _ = gen.instantiate(rng, cls.structure(), runlen=rng.choice([2, 5, 9]), forbid=(enz.site, gen.rc(enz.site)))
+        except Exception:  # noqa
+            continue
+        wd = inst + gen.rnd_avoid(rng, rng.randint(2, 8), (enz.site, gen.rc(enz.site)))
+        if rng.random() < 0.5:
+            wd = gen.rc(wd)
+        ctx.guard(check_typing, {"cls": "generic:{}:{}".format(kind, enz), "insite": True,
                                  "word": gen.rot(wd, rng.randrange(len(wd)))})
     for enz in asm.pick_enzymes(rng, ctx.budget(250, 10000)):
         g = asm.gen_wellformed(rng, enz, rng.randint(1, 4))
